@@ -451,6 +451,17 @@ pub fn run_listen(ctx: &Ctx) {
             })
             .collect();
         let address = server.address.clone();
+        // half of the peers whose stream contains a malformed message do NOT half-close after
+        // sending: the service has to close the faulty connection on its own, and completely
+        // (a later write by the peer must fail)
+        let keep_open: Vec<bool> = cases
+            .iter()
+            .enumerate()
+            .map(|(k, c)| {
+                let v = judge(&refsvc, &c.0);
+                v.first_bad.is_some() && !v.unspecified && v.sig.is_none() && k % 2 == 0
+            })
+            .collect();
         let results: Vec<(Result<(Vec<u8>, bool), String>, Result<usize, String>)> = std::thread::scope(|s| {
             let hs: Vec<_> = cases
                 .iter()
@@ -459,6 +470,7 @@ pub fn run_listen(ctx: &Ctx) {
                     let address = address.clone();
                     let m = m.clone();
                     let salt = *salt;
+                    let keep = keep_open[k];
                     s.spawn(move || {
                         let mut r2 = Rng::new(salt);
                         let a2 = address.clone();
@@ -472,8 +484,22 @@ pub fn run_listen(ctx: &Ctx) {
                             let k = r2.below(3);
                             let cuts: Vec<usize> = if m.len() > 2 { (0..k).map(|_| r2.range(1, m.len() - 1)).collect::<std::collections::BTreeSet<_>>().into_iter().collect() } else { vec![] };
                             let _ = c.write_segmented(&m, &cuts, r2.below(500) as u64);
-                            c.shutdown_write();
-                            Ok(c.read_to_eof(Duration::from_secs(20)))
+                            if !keep {
+                                c.shutdown_write();
+                                return Ok(c.read_to_eof(Duration::from_secs(20)));
+                            }
+                            let (out, eof) = c.read_to_eof(Duration::from_secs(20));
+                            if !eof {
+                                return Ok((out, false));
+                            }
+                            // EOF seen: the connection must be gone, not merely half-closed
+                            for _ in 0..100 {
+                                if c.write_all(b" ").is_err() {
+                                    return Ok((out, true));
+                                }
+                                std::thread::sleep(Duration::from_millis(10));
+                            }
+                            Err("HALF-OPEN: 100 writes over 1 s after the service's EOF all succeeded".into())
                         })();
                         (faulty, hh.join().unwrap_or_else(|_| Err("healthy thread panicked".into())))
                     })
@@ -481,13 +507,17 @@ pub fn run_listen(ctx: &Ctx) {
                 .collect();
             hs.into_iter().map(|h| h.join().unwrap()).collect()
         });
-        for ((m, name, desc, _), (faulty, neighbour)) in cases.iter().zip(results) {
+        for (ci, ((m, name, desc, _), (faulty, neighbour))) in cases.iter().zip(results).enumerate() {
             i += 1;
             let v = judge(&refsvc, m);
             ctx.case(if v.first_bad.is_some() { Some(hash_of(&(hash_of(m), "listen"))) } else { None });
             ctx.count("listen_faulty_connections", 1);
+            if keep_open[ci] {
+                ctx.count("listen_faulty_peers_that_kept_their_side_open", 1);
+            }
             let wit = |msg: String| json!({"engine": "c06", "transport": "listen(child process)", "operator": name, "corpus": desc, "stream_hex": hex(&m[..m.len().min(20000)]), "stream": show(m), "message": msg});
             match faulty {
+                Err(e) if e.starts_with("HALF-OPEN") => ctx.violation("c06:listen:faulty-connection-only-half-closed", wit(format!("the peer kept its side open; {}", e))),
                 Err(e) => ctx.inconclusive(json!({ "faulty_connect": e })),
                 Ok((out, eof)) => {
                     if !eof {
